@@ -133,6 +133,15 @@ def run(rep, tier, driver):
         if r != refs[i]:
             key = KNOWN_KEY if (k == "short" and ks) else "variant:" + s
             rep.violation("input", {"iupac": s, "variant": k, "reference": ref}, {"result": r}, {"result": refs[i]}, key=key)
+    # ---------------- (c) the Lean Model of MonomerFactory.create (C06_ring_default, C06_anomer_suffix are about it) against factory.py
+    import createx
+    codes = vocab.sac + vocab.lits["COUNT"]
+    names = [c + r + sfx for c in codes for r in ("", "p", "f") for sfx in ("", "a", "b", " a")]
+    names += [pre + c + suf for c in codes for pre, suf in (("D-", ""), ("L-", "a"), ("", "-ol"), ("", "-onic"), ("6d", ""), ("", "2NAc"), ("", "A"))]
+    names += cv.names
+    rng.shuffle(names)
+    names = [c + "-ol" for c in vocab.sugars_ol] + names          # open-table rows first: the quick tier truncates
+    createx.run(rep, tier, driver, names)
 
 
 def replay(body):
